@@ -82,6 +82,22 @@ def gen_cases(tier, seed):
             w = {'file': line[0], 'lineno': line[1], 'name': f'{line[0]}:{line[1]}:{line[2]}', 'nth': rng.randrange(0, 6), 'action': 'pause', 'wait': 0.2}
             cases.append({'seed': rng.randrange(1 << 30), 'min_part': 8, 'config': cfg, 'transfers': ts,
                           'yield': {'p': rng.choice([0.0, 0.1]), 'window': w}, 'plan': {'delay_p': rng.choice([0.0, 0.3])}})
+    # user code that starts another transfer on the same manager from a callback running ON A STAGE'S OWN THREAD (on_queued: the
+    # submission stage) while that stage's queue is full: the nested hand-over waits for room like any other
+    for i in range(60 if quick else 600):
+        n = rng.choice([3, 4])
+        q = rng.choice([2, 2, 3])
+        ts = []
+        for j in range(n):
+            kind, extra = rng.choice([k for k in gen.KINDS if k[1].get('dst') != 'fifo'])
+            ts.append(dict({'kind': kind, 'size': rng.choice([5, 20, 27])}, **extra))
+        # (fewer such callbacks than slots: with as many, every slot could be held by a task waiting for a slot - the caller's own doing)
+        for j in rng.sample(range(n), rng.choice([1, q - 1])):
+            ts[j]['subs'] = [{'reenter': {'on_queued': ['submit_new']}}, {}]
+        cfg = dict(multipart_threshold=16, multipart_chunksize=8, io_chunksize=4, max_submission_queue_size=q, max_submission_concurrency=q,
+                   max_request_concurrency=rng.choice([1, 2]), max_request_queue_size=rng.choice([1, 2, 1000]))
+        cases.append({'seed': rng.randrange(1 << 30), 'min_part': 8, 'config': cfg, 'transfers': ts, 'family': 'callback-submits', 'chained': True,
+                      'plan': {'gate': {'match': '/s3:', 'phase': 'before', 'policy': 'seeded'}, 'delay_p': 0.0}})
     return cases
 
 
